@@ -249,6 +249,18 @@ B12 = {
  "C15-15": ("C15", "a host added (or bootstrapped), removed, and added again", "set of known host keys not updated on removal: the second add is swallowed"),
  "C18-17": ("C18", "one client connection that pipelines: an EXECUTE handled while a PREPARED result for the same connection is processed, or two PREPAREs completing on different backend connections", "per-client map written on the response path and read on the request path"),
 }
+B13 = {
+ "C01-16": ("C01", "an UNPREPARED answer already read (or arriving) for an EXECUTE when something other than the read loop closes that backend connection, so that sending the re-prepare fails with an error other than exhausted streams", "re-prepare send failure hands the request back only for StreamsExhausted: the EXECUTE is known to nobody any more and never answered"),
+ "C04-15": ("C04", "a non-idempotent request pending on a backend connection the proxy closes itself (idle timeout after unanswered heartbeats, host removal, pool shutdown)", "OnClose moves on to the next host when the close error is the local Closed: the request is executed a second time"),
+ "C05-10": ("C05", "a request in the middle of its traversal (a retry-next pending) when a host other than the current one is removed or added", "query plan re-reads the load balancer's live host list on every Next(): offset and index applied to a list of another length - a host twice, another never"),
+ "C05-14": ("C05", "a non-idempotent prepared EXECUTE answered UNPREPARED, and the connection lost while the proxy's own PREPARE is in flight there", "prepareRequest.OnClose moves the original request to the next host instead of applying the connection-loss rule"),
+ "C08-8": ("C08", "an EXECUTE that reaches another host and comes back UNPREPARED before the first connection's reader has stored the PREPARED result (a slow user-supplied cache widens the window)", "prepared cache filled after the PREPARED result has been handed to the client"),
+ "C08-11": ("C08", "two EXECUTEs of one id answered UNPREPARED on one backend connection while the first one's re-prepare is unanswered, and that PREPARE answered with an error", "re-prepares shared per connection: the error branch moves only the first request on and forgets the waiters"),
+ "C14-13": ("C14", "a schema event queued in the cluster's event channel while the loop is busy, and the control connection closing before the loop gets back to its select", "queued events discarded on control-connection loss as stale: a schema event already read is delivered to nobody"),
+ "C16-13": ("C16", "a control-connection loss followed by nodes that accept connection and handshake but fail the system-table queries (restarting nodes)", "control connection, endpoint and outage reset recorded before the system queries: the outage clock restarts with every half-finished attempt, readiness never fails"),
+ "C17-12": ("C17", "a backend that sends garbage (its connection is closed by the proxy) while a well-behaved client's request is handed to that connection during the notification of the pending requests (same change as C01-11, delivered for C17)", "Closing() notifies pending requests before it sets the closing flag: a request accepted in between is never answered"),
+}
+B12.update(B13)
 B11.update(B12)
 B10.update(B11)
 B9.update(B10)
@@ -284,7 +296,7 @@ for sid in sorted(os.listdir(os.path.join(V, "seeded"))):
         demos = sorted(f for f in os.listdir(d) if f not in ("patch.diff", "meta.json", "notes.md"))
         meta = {
             "id": sid, "breaks_property": prop,
-            "origin": "fresh sub-agent given only the property text and a scratch worktree of /repo (commit %s)" % ("dd3f42b (round 12)" if sid in B12 else "dd3f42b (round 11)" if sid in B11 else "dd3f42b (round 10)" if sid in B10 else "dd3f42b (round 9)" if sid in B9 else "dd3f42b (round 8)" if sid in B8 else "19163b6 (round 7)" if sid in B7 else "19163b6 (round 6)" if sid in B6 else "19163b6" if sid in B5 else "78cb41b" if sid in B4 else "98f4792" if sid in B3 else "2fe6b89"),
+            "origin": "fresh sub-agent given only the property text and a scratch worktree of /repo (commit %s)" % ("dd3f42b (round 13)" if sid in B13 else "dd3f42b (round 12)" if sid in B12 else "dd3f42b (round 11)" if sid in B11 else "dd3f42b (round 10)" if sid in B10 else "dd3f42b (round 9)" if sid in B9 else "dd3f42b (round 8)" if sid in B8 else "19163b6 (round 7)" if sid in B7 else "19163b6 (round 6)" if sid in B6 else "19163b6" if sid in B5 else "78cb41b" if sid in B4 else "98f4792" if sid in B3 else "2fe6b89"),
             "needs_to_manifest": needs, "effect": effect, "demonstration": demos,
             "confirmed": "bin/seedconfirm in the scratch worktree: patch applies, go build ok, existing suite passes with it (in a private network namespace), demonstration FAILS with the patch and PASSES without it",
             "checks_run": "bin/seedtest seeded/%s/patch.diff quick %s ; bin/seedmatrix quick" % (sid, prop),
